@@ -1000,33 +1000,24 @@ fn process_text<'input>(
     }
 
     let mut text_buffer = TextBuffer::new();
-    let mut is_as_is = false; // TODO: explain
     let mut stream = Stream::from_substr(ctx.doc.text, range.clone());
     while !stream.at_end() {
         match parse_next_chunk(&mut stream, &ctx.entities)? {
             NextChunk::Byte(c) => {
-                if is_as_is {
-                    text_buffer.push_raw(c);
-                    is_as_is = false;
-                } else {
-                    text_buffer.push_from_text(c, stream.at_end());
-                }
+                text_buffer.push_from_text(c);
             }
             NextChunk::Char(c) => {
                 for b in CharToBytes::new(c) {
                     if ctx.loop_detector.depth > 0 {
-                        text_buffer.push_from_text(b, stream.at_end());
+                        text_buffer.push_from_text(b);
                     } else {
                         // Characters not from entity should be added as is.
                         // Not sure why... At least `lxml` produces the same result.
                         text_buffer.push_raw(b);
-                        is_as_is = true;
                     }
                 }
             }
             NextChunk::Text(fragment) => {
-                is_as_is = false;
-
                 if !text_buffer.is_empty() {
                     ctx.append_text(Cow::Owned(text_buffer.finish()), range.clone())?;
                 }
@@ -1296,6 +1287,9 @@ impl Iterator for CharToBytes {
 
 struct TextBuffer {
     buffer: Vec<u8>,
+    // The last byte is a \r that still has to be normalized:
+    // it becomes \n, and a \n that directly follows it is dropped.
+    pending_cr: bool,
 }
 
 impl TextBuffer {
@@ -1303,12 +1297,27 @@ impl TextBuffer {
     fn new() -> Self {
         TextBuffer {
             buffer: Vec::with_capacity(32),
+            pending_cr: false,
         }
     }
 
     #[inline]
     fn push_raw(&mut self, c: u8) {
+        self.resolve_pending_cr();
         self.buffer.push(c);
+    }
+
+    #[inline]
+    fn resolve_pending_cr(&mut self) -> bool {
+        if self.pending_cr {
+            self.pending_cr = false;
+            if let Some(last) = self.buffer.last_mut() {
+                *last = b'\n';
+            }
+            true
+        } else {
+            false
+        }
     }
 
     fn push_from_attr(&mut self, mut current: u8, next: Option<u8>) {
@@ -1329,26 +1338,19 @@ impl TextBuffer {
     // Translate \r\n and any \r that is not followed by \n into a single \n character.
     //
     // https://www.w3.org/TR/xml/#sec-line-ends
-    fn push_from_text(&mut self, c: u8, at_end: bool) {
-        if self.buffer.last() == Some(&b'\r') {
-            let idx = self.buffer.len() - 1;
-            self.buffer[idx] = b'\n';
-
-            if at_end && c == b'\r' {
-                self.buffer.push(b'\n');
-            } else if c != b'\n' {
-                self.buffer.push(c);
-            }
-        } else if at_end && c == b'\r' {
-            self.buffer.push(b'\n');
-        } else {
-            self.buffer.push(c);
+    fn push_from_text(&mut self, c: u8) {
+        if self.resolve_pending_cr() && c == b'\n' {
+            return;
         }
+
+        self.buffer.push(c);
+        self.pending_cr = c == b'\r';
     }
 
     #[inline]
     fn clear(&mut self) {
         self.buffer.clear();
+        self.pending_cr = false;
     }
 
     #[inline]
@@ -1358,6 +1360,8 @@ impl TextBuffer {
 
     #[inline]
     fn finish(&mut self) -> String {
+        self.resolve_pending_cr();
+
         // `unwrap` is safe, because buffer must contain a valid UTF-8 string.
         String::from_utf8(take(&mut self.buffer)).unwrap()
     }
